@@ -351,7 +351,7 @@ class C07(Monitor):
             receiver = sem.get("to")
         elif kind in ("donate", "transfer"):
             receiver = sem["target"]
-        elif kind in ("unauth", "add_decimals", "admin"):
+        elif kind in ("unauth", "add_decimals", "admin", "owner_admin", "matrix"):
             pass
         lp_of = dict((p.lp, p) for p in w.pairs)
         problems = []
